@@ -152,6 +152,8 @@ def evaluate(spec, wfin=None, jobs_out=None):
             groups.setdefault(tuple((ax, c[ax]) for ax in rem), []).append(out)
         combined = len(rem) < len(axes)
         table = OrderedDict((k, (v if combined else v[0])) for k, v in groups.items())
+        if combined and not rem and not jobs:
+            table[()] = []          # every axis combined and nothing ran: one empty list
         nr = NodeRes(name, axes, [(c, t) for c, t, _ in jobs if t is not None], rem, table, combined)
         nr.list_len = nd.get("n", 2) if kind == "L" and not combined else None
         res[name] = nr
